@@ -485,3 +485,27 @@ pub fn verif_candidate_from_operation(
     std::mem::forget(output);
     candidate
 }
+
+/// Verification-only entry point (feature `trustfall_verif`): the candidate that
+/// `DynamicallyResolvedValue::resolve_fold_specific_field` computes for one context whose fold has
+/// `count` elements (`None` = the fold lies inside an `@optional` scope that does not exist).
+#[cfg(feature = "trustfall_verif")]
+pub fn verif_resolve_fold_specific_field(
+    query: InterpretedQuery,
+    component: &IRQueryComponent,
+    fold_field: &FoldSpecificField,
+    operation: Operation<(), ()>,
+    initial_candidate: CandidateValue<FieldValue>,
+    count: Option<usize>,
+) -> CandidateValue<FieldValue> {
+    let field = FieldRef::FoldSpecificField(fold_field.clone());
+    let value =
+        DynamicallyResolvedValue::new(query, component, &field, operation, initial_candidate);
+    let mut ctx: crate::interpreter::DataContext<()> = crate::interpreter::DataContext::new(None);
+    let folded = count.map(|n| (0..n).map(|_| crate::interpreter::DataContext::new(None)).collect());
+    ctx.folded_contexts.insert(fold_field.fold_eid, folded);
+    let contexts: ContextIterator<'static, ()> = Box::new(std::iter::once(ctx));
+    let mut output = value.resolve_fold_specific_field(fold_field, contexts);
+    let (_, candidate) = output.next().expect("one element");
+    candidate
+}
